@@ -507,7 +507,7 @@ def advance_progress(sim: SimRunner, world: World):
     current_step_prog = [sim.current_step] if sim.current_step else []
     if world.rt_factor:
         rt_passed = perf_counter() - sim.rt_start
-        rt_progress = [TieredTime(ceil(rt_passed / world.rt_factor))]
+        rt_progress = [TieredTime(ceil(rt_passed / world.rt_factor)) + sim.from_world_time]
     else:
         rt_progress = []
     new_progress = min([
